@@ -182,6 +182,45 @@ def _collect_c04(mb, run, res, stats, covered):
             probes['deselect_when_already_released'] = probes.get('deselect_when_already_released', 0) + 1
 
 
+def _gen_model_c11(rng: Rng):
+    spec = modelgen.gen_spec(rng.fork('spec'), want_mc=True, mc_triggers=True)
+    cfg = cfggen.gen_cfg(rng.fork('cfg'), spec, use_mc=True, force_all_mts=True)
+    return spec, cfg
+
+
+def _collect_c11(mb, run, res, stats, covered):
+    faults = stats.setdefault('faults', {})
+    probes = stats.setdefault('probes', {})
+    h = oracles.History(mb, run, res)
+    mc = mb.mc
+    wins = oracles.c11_windows(h)
+    if wins:
+        probes['windows_opened'] = probes.get('windows_opened', 0) + len(wins)
+    for c in h.calls.values():
+        if c['side'] == 'i' and c['ev'] in mc['out_events']:
+            if any(s < c['seq'] < e for _, s, e in wins):
+                probes['raise_in_open_window'] = probes.get('raise_in_open_window', 0) + 1
+            else:
+                probes['raise_outside_windows'] = probes.get('raise_outside_windows', 0) + 1
+        if c['side'] == 'o' and c['ev'] == mc['claim'] and c['ret'] and c['ret']['reply'] != mc['grant']:
+            faults['claim_denied'] = faults.get('claim_denied', 0) + 1
+    for r in res.records:
+        if r['kind'] == 'log':
+            m = r.get('msg', '')
+            if 'overruling' in m:
+                probes['select_overrules'] = probes.get('select_overrules', 0) + 1
+            if 'does_not_hold_the_claim' in m:
+                probes['deselect_by_non_holder'] = probes.get('deselect_by_non_holder', 0) + 1
+            if 'already_released' in m:
+                probes['deselect_when_nobody_selected'] = probes.get('deselect_when_nobody_selected', 0) + 1
+    if int(res.end.get('contended', 0)) > 0:
+        probes['lock_contended'] = probes.get('lock_contended', 0) + int(res.end.get('contended', 0))
+    for f in run.get('fault_plan', []):
+        faults[f] = faults.get(f, 0) + 1
+    if run['stall_len'] > 0 and int(res.end.get('steps', 0)) > run['stall_from']:
+        faults['dispatcher_stall'] = faults.get('dispatcher_stall', 0) + 1
+
+
 PROFILES = {
     'C01': {
         'flavor': 'asan', 'model_stream': 'routing',
@@ -211,6 +250,14 @@ PROFILES = {
         'collect': _collect_c04,
         'nontrivial': lambda mb, run, res: any(r['kind'] == 'hdl' and r['side'] == 'o' and r['cl'] != '-1' for r in res.records),
         'site': lambda mb, run, res, v: oracles.c04_site(mb, run, res), 'pairs': lambda mb: set(mb.mc['out_events']),
+    },
+    'C11': {
+        'flavor': 'tsan', 'model_stream': 'multiclient-mts',
+        'gen_model': _gen_model_c11, 'gen_runs': lambda rng, mb, n: tapes.gen_c11_runs(rng, mb, n),
+        'judge': oracles.judge_c11, 'judge_static': _no_static,
+        'collect': _collect_c11,
+        'nontrivial': lambda mb, run, res: sum(1 for r in res.records if r['kind'] == 'window_open') >= 2,
+        'site': _site_default, 'pairs': lambda mb: set(),
     },
     'C02': {
         'flavor': 'asan', 'model_stream': 'routing',
